@@ -2,9 +2,231 @@
 C17, property theorems about the TRANSLATED sender-side handshake fragmentation
 (`Src.dtlcp.tx.Conn.writeHandshakeRecord`; see DESIGN.md 12.4).  Same namespace as Props/C17.lean;
 listed in checks/C17.json under extra_props_files.
+
+`Src.dtlcp.tx.Conn.writeHandshakeRecord c msg transcript` is regenerated from dtlcp/conn.go on every run, over
+the view described in `Gotlcp.Tie.TxFragment` (`c.sent`: the payloads handed to the record layer, in order;
+`c.writeErrAt`: the failing call of `writeRecordLocked`, negative for none; `msg.data`: what `marshal()` returns).
+The theorems give the closed form of what is sent — for every view, message and transcript — and feed it to the
+TRANSLATED receiver (`Src.dtlcp.newFragmentBuffer / addFragment / complete / assembled`).
 -/
 import Gotlcp.Generated.Src
+import Gotlcp.Tie.TxFragment
+import Gotlcp.Tie.TxFragmentE2E
+import Gotlcp.Tie.TxFragmentModel
+import Gotlcp.Props.C17
+
+set_option linter.unusedSimpArgs false
+set_option linter.unusedVariables false
 
 namespace Gotlcp.Props.C17
+open Gotlcp.Src.dtlcp.tx
+open Gotlcp.Tie.TxFragment (maxPayload fragments fragRec hdr be3 seqOf sumLen)
+open Gotlcp.Tie.TxFragmentE2E (parseFrag parseTotal)
+
+/-- **The translated sender is the model.** For every view, every message whose `marshal()` succeeds and every
+transcript: when the model `Model.Fragment.writeHandshake` (on the same bytes and the view's maximum payload) yields
+records `rs` — one record, or the fragments of `fragmentize` — the translated function hands down records `l` that
+are byte for byte `rs`, up to the failing write of the view if there is one; when the model refuses
+(`errTooShort`, `errPmtuTooSmall`) the translated function returns an error and sends nothing.  In both cases the
+transcript has received the unfragmented message (`writeHandshakeT`'s first component).  This replaces the
+text-matching facts about the statements of `writeHandshakeRecord` that `C17_facts` / `C17_transcript_facts` used
+to pin: the model's sender theorems above are about the function text in the tree. -/
+theorem C17_src_tx_is_model (c : Conn) (msg : goMsg) (tr : goTranscript)
+    (hlen : msg.data.length ≤ 2 ^ 32 - 16384) (hf : msg.fails = false) :
+    (∀ rs, Tie.TxFragmentModel.modelRecords
+        (Model.Fragment.writeHandshake (msg.data.map Tie.Fragment.ob) (maxPayload c).toNat) = some rs →
+      ∃ l : List (List (BitVec 8)), l.map (fun r => r.map Tie.Fragment.ob) = rs ∧
+        Conn.writeHandshakeRecord c msg tr = .ok
+          ({ c with sent := c.sent ++ l.take (Tie.TxFragment.okWrites c l.length) },
+           { tr with written := tr.written ++ msg.data },
+           sumLen (l.take (Tie.TxFragment.okWrites c l.length)),
+           if Tie.TxFragment.okWrites c l.length < l.length then some Go.Error.other else none)) ∧
+    (Tie.TxFragmentModel.modelRecords
+        (Model.Fragment.writeHandshake (msg.data.map Tie.Fragment.ob) (maxPayload c).toNat) = none →
+      Conn.writeHandshakeRecord c msg tr = .ok
+        (c, { tr with written := tr.written ++ msg.data }, 0, some Go.Error.other)) ∧
+    (Model.Fragment.writeHandshakeT (msg.data.map Tie.Fragment.ob) (maxPayload c).toNat).1
+      = msg.data.map Tie.Fragment.ob := by
+  have hm := Tie.TxFragmentModel.txPlan_model (maxPayload c) (Tie.TxFragment.maxPayload_range c).1 msg.data (by omega)
+  refine ⟨?_, ?_, rfl⟩
+  · intro rs hrs
+    rw [hrs] at hm
+    cases hp : Tie.TxFragment.txPlan (maxPayload c) msg.data with
+    | none => rw [hp] at hm; cases hm
+    | some l =>
+      rw [hp] at hm
+      injection hm with hm
+      exact ⟨l, hm, Tie.TxFragment.src_sends c msg tr hlen hf l hp⟩
+  · intro hn
+    rw [hn] at hm
+    cases hp : Tie.TxFragment.txPlan (maxPayload c) msg.data with
+    | none => exact Tie.TxFragment.src_refuses c msg tr hlen hf hp
+    | some l => rw [hp] at hm; cases hm
+
+/-- the writes of this call do not fail: the failing call of the view lies before or after them -/
+def NoFail (c : Conn) (k : Nat) : Prop :=
+  c.writeErrAt < (c.sent.length : Int) ∨ (c.sent.length : Int) + (k : Int) ≤ c.writeErrAt
+
+theorem okWrites_noFail (c : Conn) (k : Nat) (h : NoFail c k) : Tie.TxFragment.okWrites c k = k := by
+  unfold Tie.TxFragment.okWrites NoFail at *
+  rw [if_neg (by omega)]
+
+/-- **Unfragmented when it fits.** `len(data) ≤ maxPayload`: one record, the message itself; the transcript
+receives `data`; the returned count is `len(data)`. -/
+theorem C17_src_tx_single_record (c : Conn) (msg : goMsg) (tr : goTranscript)
+    (hlen : msg.data.length ≤ 2 ^ 32 - 16384) (hf : msg.fails = false)
+    (hfit : (msg.data.length : Int) ≤ maxPayload c) (hw : NoFail c 1) :
+    Conn.writeHandshakeRecord c msg tr = .ok
+      ({ c with sent := c.sent ++ [msg.data] }, { tr with written := tr.written ++ msg.data },
+       (msg.data.length : Int), none) := by
+  rw [Tie.TxFragment.src_sends c msg tr hlen hf _ (Tie.TxFragment.txPlan_single _ _ hfit)]
+  have : Tie.TxFragment.okWrites c [msg.data].length = 1 := okWrites_noFail c 1 hw
+  rw [this]
+  simp [sumLen]
+
+/-- **Refused.** A message that does not fit and is not longer than the 12-byte header, or a maximum payload
+that leaves no room for a fragment body (`maxPayload ≤ 12`): an error, nothing is sent (the transcript has
+already received `data`). -/
+theorem C17_src_tx_refused (c : Conn) (msg : goMsg) (tr : goTranscript)
+    (hlen : msg.data.length ≤ 2 ^ 32 - 16384) (hf : msg.fails = false)
+    (hbig : ¬ (msg.data.length : Int) ≤ maxPayload c) (h : msg.data.length ≤ 12 ∨ maxPayload c ≤ 12) :
+    Conn.writeHandshakeRecord c msg tr = .ok
+      (c, { tr with written := tr.written ++ msg.data }, 0, some Go.Error.other) :=
+  Tie.TxFragment.src_refuses c msg tr hlen hf (Tie.TxFragment.txPlan_refuse _ _ hbig h)
+
+/-- a failing `marshal()`: its error, nothing sent, the transcript untouched -/
+theorem C17_src_tx_marshal_error (c : Conn) (msg : goMsg) (tr : goTranscript) (hf : msg.fails = true) :
+    Conn.writeHandshakeRecord c msg tr = .ok (c, tr, 0, some Go.Error.other) :=
+  Tie.TxFragment.src_marshal_fails c msg tr hf
+
+/-- **Closed form of the fragments.** A message `data = header ++ body` that does not fit, with `maxPayload > 12`
+and no failing write: exactly the records `fragments type message_seq body (maxPayload − 12)` are appended to
+`c.sent` — fragment `i` is `hdr(type, |body|, message_seq, i·m, len_i) ++ body[i·m, i·m + len_i)` with
+`m = maxPayload − 12`, `len_i = min m (|body| − i·m)`, `i < ⌈|body|/m⌉`; type and `message_seq` are bytes 0 and
+4..5 of `data` —; the transcript receives the UNFRAGMENTED `data`, once; the returned count is the sum of the
+record lengths. -/
+theorem C17_src_tx_fragments (c : Conn) (msg : goMsg) (tr : goTranscript)
+    (hlen : msg.data.length ≤ 2 ^ 32 - 16384) (hf : msg.fails = false)
+    (hbig : ¬ (msg.data.length : Int) ≤ maxPayload c) (h12 : 12 < msg.data.length) (hmp : 12 < maxPayload c)
+    (hw : NoFail c (fragments (msg.data.getD 0 0#8) (seqOf msg.data) (msg.data.drop 12) (maxPayload c - 12).toNat).length) :
+    Conn.writeHandshakeRecord c msg tr = .ok
+      ({ c with sent := c.sent ++
+          fragments (msg.data.getD 0 0#8) (seqOf msg.data) (msg.data.drop 12) (maxPayload c - 12).toNat },
+       { tr with written := tr.written ++ msg.data },
+       sumLen (fragments (msg.data.getD 0 0#8) (seqOf msg.data) (msg.data.drop 12) (maxPayload c - 12).toNat),
+       none) := by
+  rw [Tie.TxFragment.src_sends c msg tr hlen hf _ (Tie.TxFragment.txPlan_frag _ _ hbig h12 hmp)]
+  rw [okWrites_noFail c _ hw, if_neg (by omega), List.take_length]
+
+/-- **The fragments cover the body exactly.** For every body and every fragment body size `m ≥ 1`: the list has
+`⌈|body|/m⌉` elements; element `i` is the 12-byte header with offset `i·m` and length `len_i = min m (|body| − i·m)`,
+`1 ≤ len_i ≤ m`, followed by exactly `len_i` body bytes (so offsets chain: `off_0 = 0`, `off_{i+1} = off_i + len_i`
+until the last one ends at `|body|`); and the fragment bodies, concatenated in order, are the body — no gap, no
+overlap, nothing beyond the end. -/
+theorem C17_src_tx_fragments_cover_exactly (t : BitVec 8) (seq : BitVec 16) (body : List (BitVec 8)) (m : Nat)
+    (hm : 1 ≤ m) :
+    (fragments t seq body m).length = (body.length + m - 1) / m ∧
+    (∀ i, i < (body.length + m - 1) / m →
+      i * m < body.length ∧ 1 ≤ min m (body.length - i * m) ∧
+      (i * m + min m (body.length - i * m) = (i + 1) * m ∨ i * m + min m (body.length - i * m) = body.length) ∧
+      (fragments t seq body m)[i]? = some
+        (hdr t (BitVec.ofNat 32 body.length) seq (BitVec.ofNat 32 (i * m))
+            (BitVec.ofNat 32 (min m (body.length - i * m)))
+          ++ (body.drop (i * m)).take (min m (body.length - i * m))) ∧
+      ((body.drop (i * m)).take (min m (body.length - i * m))).length = min m (body.length - i * m)) ∧
+    (fragments t seq body m).flatMap (fun r => r.drop 12) = body := by
+  refine ⟨by simp [fragments], ?_, ?_⟩
+  · intro i hi
+    have hlt : i * m < body.length := by
+      have := (Nat.lt_iff_add_one_le.mp hi)
+      rw [Nat.le_div_iff_mul_le (by omega), Nat.add_mul] at this
+      omega
+    refine ⟨hlt, by omega, ?_, ?_, ?_⟩
+    · rw [Nat.add_mul]; omega
+    · simp only [fragments, List.getElem?_map, List.getElem?_range hi, Option.map_some, fragRec]
+    · rw [List.length_take, List.length_drop]; omega
+  · rw [← Tie.TxFragment.fragsFrom_eq_fragments t seq body m hm (body.length + 1) (by omega)]
+    have := Tie.TxFragment.fragsFrom_concat t seq body m hm (body.length + 1) 0 (by omega)
+    rw [this]; rfl
+
+/-- **END TO END, translated sender → translated receiver.** Take the fragments the translated sender produces
+for a body of `1 … 2^24 − 1` bytes at any fragment body size `m ≥ 1`; deliver them in ANY order with ANY
+duplication (`l` is any list containing exactly these records, each at least once — every permutation and every
+multiset super-list); parse each 12-byte header as `readHandshake` does and hand `(offset, length, body)` to the
+translated `addFragment`, starting from the translated `newFragmentBuffer(total)`: every fragment announces
+`total = |body|`, every one is accepted, `complete()` is true and `assembled()` is exactly `body`. -/
+theorem C17_src_tx_sender_receiver (t : BitVec 8) (seq : BitVec 16) (body : List (BitVec 8))
+    (hb : 0 < body.length) (h24 : body.length < 2 ^ 24) (m : Nat) (hm : 1 ≤ m) (l : List (List (BitVec 8)))
+    (hsub : ∀ r ∈ l, r ∈ fragments t seq body m) (hall : ∀ r ∈ fragments t seq body m, r ∈ l) :
+    (∀ r ∈ l, parseTotal r = BitVec.ofNat 32 body.length) ∧
+    Tie.Fragment.srcSession (BitVec.ofNat 32 body.length) (l.map parseFrag)
+      = .ok (l.map (fun _ => true), true, body) :=
+  Tie.TxFragmentE2E.sender_receiver t seq body hb h24 m hm l hsub hall
+
+/-- … in particular for every permutation of the fragment list -/
+theorem C17_src_tx_sender_receiver_perm (t : BitVec 8) (seq : BitVec 16) (body : List (BitVec 8))
+    (hb : 0 < body.length) (h24 : body.length < 2 ^ 24) (m : Nat) (hm : 1 ≤ m) (l : List (List (BitVec 8)))
+    (hp : l.Perm (fragments t seq body m)) :
+    Tie.Fragment.srcSession (BitVec.ofNat 32 body.length) (l.map parseFrag)
+      = .ok (l.map (fun _ => true), true, body) :=
+  Tie.TxFragmentE2E.sender_receiver_perm t seq body hb h24 m hm l hp
+
+/-- **The whole path, from the call of `writeHandshakeRecord`.** A message `data` (more than 12 bytes, body below
+`2^24` bytes) that does not fit the maximum payload of the view, `maxPayload > 12`, no failing write: the records
+the call appends to `c.sent`, delivered in any order with any duplication and reassembled by the translated
+receiver, give back exactly `data[12:]` — and the sender's transcript holds exactly `data`. -/
+theorem C17_src_tx_end_to_end (c : Conn) (msg : goMsg) (tr : goTranscript) (hf : msg.fails = false)
+    (h12 : 12 < msg.data.length) (h24 : msg.data.length < 2 ^ 24 + 12)
+    (hbig : ¬ (msg.data.length : Int) ≤ maxPayload c) (hmp : 12 < maxPayload c)
+    (hw : NoFail c (fragments (msg.data.getD 0 0#8) (seqOf msg.data) (msg.data.drop 12) (maxPayload c - 12).toNat).length) :
+    ∃ c' n, Conn.writeHandshakeRecord c msg tr = .ok (c', { tr with written := tr.written ++ msg.data }, n, none) ∧
+      c'.sent.take c.sent.length = c.sent ∧
+      ∀ l : List (List (BitVec 8)),
+        (∀ r ∈ l, r ∈ c'.sent.drop c.sent.length) → (∀ r ∈ c'.sent.drop c.sent.length, r ∈ l) →
+        (∀ r ∈ l, parseTotal r = BitVec.ofNat 32 (msg.data.length - 12)) ∧
+        Tie.Fragment.srcSession (BitVec.ofNat 32 (msg.data.length - 12)) (l.map parseFrag)
+          = .ok (l.map (fun _ => true), true, msg.data.drop 12) := by
+  refine ⟨_, _, C17_src_tx_fragments c msg tr (by omega) hf hbig h12 hmp hw, ?_, ?_⟩
+  · simp
+  · intro l hsub hall
+    have hd : ∀ F : List (List (BitVec 8)), (c.sent ++ F).drop c.sent.length = F := fun F => by simp
+    simp only [hd] at hsub hall
+    have hl : (msg.data.drop 12).length = msg.data.length - 12 := List.length_drop
+    have := C17_src_tx_sender_receiver (msg.data.getD 0 0#8) (seqOf msg.data) (msg.data.drop 12)
+      (by omega) (by omega) (maxPayload c - 12).toNat (by omega) l hsub hall
+    rw [hl] at this
+    exact this
+
+/-- **The 24-bit bound is real.** The length fields of the fragment header have three bytes: for every body
+below `2^32` bytes the receiver reads the announced length modulo `2^24` — a body of exactly `2^24` bytes is
+announced as an EMPTY message.  (The sender does not check; `readHandshake` bounds messages by `maxHandshake`.) -/
+theorem C17_src_tx_length_field_is_24_bits (t : BitVec 8) (seq : BitVec 16) (body : List (BitVec 8)) (o len : Nat)
+    (hL : body.length < 2 ^ 32) :
+    parseTotal (fragRec t seq body o len) = BitVec.ofNat 32 (body.length % 2 ^ 24) ∧
+    (body.length = 2 ^ 24 → parseTotal (fragRec t seq body o len) = 0#32) := by
+  have h := Tie.TxFragmentE2E.parseTotal_fragRec_mod t seq body o len hL
+  refine ⟨h, ?_⟩
+  intro e
+  rw [h, e]
+
+/-- non-vacuity, the TRANSLATED sender and receiver run by the kernel: a 40-byte body (message of 52 bytes) on an
+unprotected view at PMTU 45 (maximum payload 32, fragment bodies of 20 bytes) leaves as two fragments of 20 bytes
+with offsets 0 and 20, the transcript holds the 52 unfragmented bytes; the two records fed to the translated
+receiver reversed and duplicated (second, first, second, first) are all accepted and rebuild the 40 bytes; the
+hypotheses of `C17_src_tx_fragments` / `C17_src_tx_end_to_end` hold of this view. -/
+example :
+    let bs (l : List Nat) : List (BitVec 8) := l.map (BitVec.ofNat 8)
+    let body := bs (List.range 40)
+    let msg : goMsg := { data := bs [11,0,0,40, 0,3, 0,0,0, 0,0,40] ++ body }
+    let c0 : Conn := { config := { PMTU := 45 }, writeErrAt := -1 }
+    let f0 := bs [11,0,0,40, 0,3, 0,0,0, 0,0,20] ++ body.take 20
+    let f1 := bs [11,0,0,40, 0,3, 0,0,20, 0,0,20] ++ body.drop 20
+    maxPayload c0 = 32 ∧
+    fragments 11#8 3#16 body 20 = [f0, f1] ∧
+    (Conn.writeHandshakeRecord c0 msg {}).toOption = some ({ c0 with sent := [f0, f1] }, { written := msg.data }, 64, none) ∧
+    (Tie.Fragment.srcSession 40#32 ([f1, f0, f1, f0].map parseFrag)).toOption
+      = some ([true, true, true, true], true, body) ∧
+    (Tie.Fragment.srcSession 40#32 ([f1, f1].map parseFrag)).toOption.map (fun r => r.2.1) = some false := by
+  decide
 
 end Gotlcp.Props.C17
